@@ -127,6 +127,8 @@ type Exec struct {
 	initTemplate  map[*ssa.Global]Value // contents of globals after package initialisation
 	initHash      uint64
 	skipped       bool
+	known         map[int]*Term
+	simpMemo      map[int]*Term
 }
 
 func NewExec(cfg *Config) (*Exec, error) {
@@ -254,6 +256,8 @@ func (ex *Exec) runOnePath() {
 	ex.globals = map[*ssa.Global]*Value{}
 	ex.externGlobals = map[*ssa.Global]Value{}
 	ex.pc = nil
+	ex.known = nil
+	ex.simpMemo = nil
 	ex.dpos = 0
 	ex.instrs = 0
 	ex.symCounter = map[string]int{}
@@ -399,6 +403,7 @@ func (ex *Exec) feasible(extra ...*Term) SatResult {
 
 // branch decides a symbolic boolean, forking when both outcomes are feasible.
 func (ex *Exec) branch(c *Term) bool {
+	c = ex.simp(c)
 	if c.IsConst() {
 		return c.V == 1
 	}
@@ -406,10 +411,10 @@ func (ex *Exec) branch(c *Term) bool {
 		d := ex.decisions[ex.dpos]
 		ex.dpos++
 		if d.taken == 1 {
-			ex.pc = append(ex.pc, c)
+			ex.addPC(c)
 			return true
 		}
-		ex.pc = append(ex.pc, ex.ts.Not(c))
+		ex.addPC(ex.ts.Not(c))
 		return false
 	}
 	var alts []int
@@ -427,15 +432,16 @@ func (ex *Exec) branch(c *Term) bool {
 	}
 	t := ex.choose(alts, "br")
 	if t == 1 {
-		ex.pc = append(ex.pc, c)
+		ex.addPC(c)
 		return true
 	}
-	ex.pc = append(ex.pc, ex.ts.Not(c))
+	ex.addPC(ex.ts.Not(c))
 	return false
 }
 
 // assume adds c to the path condition; ends the path if infeasible.
 func (ex *Exec) assume(c *Term) {
+	c = ex.simp(c)
 	if c.IsConst() {
 		if c.V == 0 {
 			ex.endPath("assume false")
@@ -449,7 +455,7 @@ func (ex *Exec) assume(c *Term) {
 		if d.taken == 0 {
 			ex.endPath("assume infeasible")
 		}
-		ex.pc = append(ex.pc, c)
+		ex.addPC(c)
 		return
 	}
 	ok := 1
@@ -460,7 +466,7 @@ func (ex *Exec) assume(c *Term) {
 	if ok == 0 {
 		ex.endPath("assume infeasible")
 	}
-	ex.pc = append(ex.pc, c)
+	ex.addPC(c)
 }
 
 // fresh creates a new symbolic input. Labels are made unique per path by an occurrence counter.
@@ -550,6 +556,7 @@ func (ex *Exec) modelFor(extra []*Term) map[string]interface{} {
 // obligation checks that c holds on the current path; records a violation with a model if not.
 // Afterwards c is assumed.
 func (ex *Exec) obligation(c *Term, kind, msg string, fr *frame) {
+	c = ex.simp(c)
 	if c.IsConst() && c.V == 1 {
 		if ex.dpos >= len(ex.decisions) {
 			ex.Stats.Obligations++
@@ -569,7 +576,7 @@ func (ex *Exec) obligation(c *Term, kind, msg string, fr *frame) {
 		if d.taken == 0 {
 			ex.endPath("violation on every continuation")
 		}
-		ex.pc = append(ex.pc, c)
+		ex.addPC(c)
 		return
 	}
 	ex.Stats.Obligations++
@@ -605,7 +612,7 @@ func (ex *Exec) obligation(c *Term, kind, msg string, fr *frame) {
 	if cont == 0 {
 		ex.endPath("violation on every continuation")
 	}
-	ex.pc = append(ex.pc, c)
+	ex.addPC(c)
 }
 
 // crash records a definite failure of the current path (panic, nil deref, ...) and ends it.
